@@ -49,6 +49,16 @@ func vIntsEq(a, b []int) bool {
 // that cancel exactly) instead of the non-negative lattice.
 var vC20Mirrored bool
 
+// vCallerDistance is a Distance implemented outside the package's own metric types.
+type vCallerDistance struct{ d Distance }
+
+func (w vCallerDistance) Calculate(a, b []float32) float32 { return w.d.Calculate(a, b) }
+func (w vCallerDistance) CalculateBatch(q [][]float32, t []float32) []float32 {
+	return w.d.CalculateBatch(q, t)
+}
+func (w vCallerDistance) PreprocessInPlace(t []float32) error       { return w.d.PreprocessInPlace(t) }
+func (w vCallerDistance) Preprocess(t []float32) ([]float32, error) { return w.d.Preprocess(t) }
+
 func vC20KMeans(c *vCtx, d, maxLen, part, parts int) {
 	var pts [][]float32
 	if vC20Mirrored {
@@ -163,6 +173,12 @@ func vC20KMeans(c *vCtx, d, maxLen, part, parts int) {
 					cen2, mp2 := KMeans(train, k, dist, maxIter)
 					if !vDeepEq(cen, cen2) || !vIntsEq(mp, mp2) {
 						c.Violation("kmeans-nondeterministic", "", cfgS, nil, desc())
+					}
+					// the metric is an interface: a caller's own Distance type (here one that
+					// delegates every method to the built-in one) gives the same clustering
+					cenW, mpW := KMeans(train, k, vCallerDistance{dist}, maxIter)
+					if !vDeepEq(cen, cenW) || !vIntsEq(mp, mpW) {
+						c.Violation("kmeans-depends-on-the-go-type-of-the-metric", "", cfgS, nil, fmt.Sprintf("%s: built-in metric value gives %v %v, a caller-defined type delegating to it gives %v %v", desc(), cen, mp, cenW, mpW))
 					}
 					if maxIter == 100 {
 						conv, convMap = cen, mp
@@ -291,6 +307,10 @@ func vC20KMeansSizes(c *vCtx, sizes []int, ks0 []int) {
 					cen2, mp2 := KMeans(train, k, dist, 100)
 					if !vDeepEq(cen, cen2) || !vIntsEq(mp, mp2) {
 						c.Violation("kmeans-nondeterministic", "sweep", cfgS, nil, desc)
+					}
+					cenW, mpW := KMeans(train, k, vCallerDistance{dist}, 100)
+					if !vDeepEq(cen, cenW) || !vIntsEq(mp, mpW) {
+						c.Violation("kmeans-depends-on-the-go-type-of-the-metric", "sweep", cfgS, nil, desc+": a caller-defined Distance type delegating to the built-in metric gives another clustering")
 					}
 					cen3, mp3 := KMeans(train, k, dist, 101)
 					if vDeepEq(cen, cen3) && vIntsEq(mp, mp3) && !(metric == Cosine && vXF.Off != 0) {
